@@ -157,6 +157,7 @@ def run(tier):
     events, good = _validate_chunks(c, trace)
     _selftest(c, good)
     all_events = len(events)
+    n_frag = 2 * len(events)
     sig = set((e['a']['scn']['proto'], e['a']['scn']['kind'], e['a']['scn']['rev'], e['a']['scn']['clip'], e['a']['scn']['clip3'],
                e['a']['scn']['r2'], json.dumps(e['a']['scn']['opts'], sort_keys=True)) for e in events)
     out_of_scope = sum(1 for e in events if e['a']['scn']['proto'] == 'nla' and not e['a']['scn']['opts']['check_motif']
@@ -183,6 +184,7 @@ def run(tier):
         return evs
     vlib.corrupt_selftest(c, 'Trace_CutSite', comp, unequal_in_one_orientation, 'same_cut_not_equal_in_one_orientation')
     all_events += len(ev2)
+    n_frag += sum(4 if 'a2' in e else 2 for e in ev2)
     os.remove(trace2)
 
     c.assumptions += ['DS convention taken from the repository: NlaIII DS = coordinate of the C of CATG on the forward reference '
@@ -195,7 +197,7 @@ def run(tier):
                          'reverse-complemented reference), each through the real NlaIIIFragment/CHICFragment; model reference and '
                          'random references', exhaustive=False,
                     extra_cov={'distinct_nontrivial': len(sig), 'scenarios_from_tlc': len(scns), 'pairs_run': all_events,
-                               'fragments_constructed': 2 * all_events, 'out_of_scope_events': out_of_scope})
+                               'fragments_constructed': n_frag, 'out_of_scope_events': out_of_scope})
 
 
 def replay(path):
